@@ -8,6 +8,13 @@ TB = ("Trusted: Lean 4.33 kernel; axioms propext, Classical.choice, Quot.sound (
 
 # id -> (category, technique, text, note, design_ref)
 CHECKS = {
+    "C11": ("proof", "Lean 4 proof of read(write ms) = ms for a token-by-token model of the binary writer/reader, parametric in reader facts regenerated from mir.c + byte-exact correspondence",
+            "PROVED for every module list satisfying an explicit decidable WF predicate over the whole vocabulary (all item kinds, all operand kinds and memory shapes, fixed and variable operand counts, data of every type): "
+            "readModules (writeModules ms) = ok ms; the format is injective (write_deterministic) and uniquely decodable; int/uint/float/long double tokens and 1-4 byte string indexes round-trip for all values; "
+            "label identity within a function. The reader facts (insn-code bound, lref labels, global-variable name, data of type p, labels before endfunc) are regenerated from the source, so the theorem is re-checked "
+            "against what the code says now. Composes with C12 (write_emits_bytes). Correspondence: raw bytes of MIR_write (after the real reduce_decode) = model bytes through the FILE and callback APIs, two writes identical "
+            "also across processes, structure/text/execution before = after MIR_read, model reader = real reader, modules up to several compression buffers.",
+            TB + " bv_decide axioms only on the uint_length/int_length bridge lemmas (Lemmas/BridgeC11). API-level validation inside the reader is not modelled.", "4 C11"),
     "C05": ("proof", "Lean 4 induction over argument lists (FFI trampoline and generated-call placement state machines = psABI placement) + assembly probe correspondence and gcc-compiled callees",
             "PROVED for every argument list of any length and mix (i8..u64,p,f,d,ld,blk0-4,rblk, variadic tail): each argument's register/stack location, the stack size/alignment and the xmm count of _MIR_get_ff_call and "
             "machinize_call equal the psABI placement (full statements for the repaired code; the pre-fix variants are refuted by kernel-checked counterexamples), %al, result placement, narrowing of i8..u32. "
